@@ -1,5 +1,115 @@
-import ChumskyModel.Model.Spec
+/-
+  C06 — primary error = furthest failure, with merged expectations and a truthful span.
+
+  Class (`G.c06`): every constructor except negative lookahead (excluded by the property), recovery strategies
+  (they *consume* the pending error: C08), `labelled`/`map_err` (they *rewrite* it: C17) and `memoized` (C11).
+  `G.nec`: no empty slice `choice` (which reports `found = None` at its position, wherever that is).
+  `St.log` is the ghost log of all failure events; a rejecting `try_map` discards the events of the sub-parse it
+  rejects together with their pending error ("the mapper error overrides it", `combinator.rs`), everything else
+  only appends.
+  Lemmas: Proofs/Lemmas/{Summ,AltInv,ErrWf,DescSim}.lean.
+-/
+import ChumskyModel.Proofs.Lemmas.ErrWf
+import ChumskyModel.Proofs.Lemmas.DescSim
+set_option linter.unusedSimpArgs false
 namespace Chumsky
-theorem placeholder_C06 : True := trivial
-#print axioms placeholder_C06
+
+/-- **C06 (invariant).** After any run of a grammar of the class the pending error is — up to the order of the
+    expected patterns — the pending error before the run merged, by the code's own priority rule, with *every*
+    failure event recorded during the run. -/
+theorem c06_pending_is_summary (n : Nat) (env : Env) (hek : env.ek ≠ .empty) (hdefs : ∀ d ∈ env.defs, d.c06 = true)
+    (m : Mode) (g : G) (hg : g.c06 = true) (st : St) :
+    match run n env m g st with
+    | .ok _ st' => AltRel env.ek st st'
+    | .fail st' => AltRel env.ek st st'
+    | _ => True :=
+  run_altRel n env hek hdefs m g hg st
+
+/-- **C06 (what is reported).** When a parse fails, the last reported error is the summary of all failure events
+    of the whole parse. -/
+theorem c06_reported_is_summary (n : Nat) (env : Env) (hek : env.ek ≠ .empty) (hdefs : ∀ d ∈ env.defs, d.c06 = true)
+    (m : Mode) (g : G) (hg : g.c06 = true) (r : ParseResult) (f : St)
+    (h : parseTop n env m g = .result r f) (ho : r.output = none) :
+    ∃ l l', f.alt = some l ∧ summ env.ek f.log = some l' ∧ l.equiv l' ∧ r.errs = f.errs.map (·.err) ++ [l.err] :=
+  parseTop_primary_error n env hek hdefs m g hg r f h ho
+
+/-- **furthest.** The last reported error lies at the furthest position at which anything failed: no event lies
+    further, and some event lies exactly there (never earlier, never invented). -/
+theorem c06_primary_is_furthest (n : Nat) (env : Env) (hek : env.ek ≠ .empty) (hdefs : ∀ d ∈ env.defs, d.c06 = true)
+    (m : Mode) (g : G) (hg : g.c06 = true) (r : ParseResult) (f : St)
+    (h : parseTop n env m g = .result r f) (ho : r.output = none) :
+    ∃ l, f.alt = some l ∧ r.errs = f.errs.map (·.err) ++ [l.err] ∧
+      (∀ ev ∈ f.log, ev.pos ≤ l.pos) ∧ (∃ ev ∈ f.log, ev.pos = l.pos) :=
+  c06_furthest n env hek hdefs m g hg r f h ho
+
+/-- **merged expectations (Rich).** If no failure at the furthest position is a user error, the expected set of the
+    reported error is exactly the union of the expected sets of all failures at that position. -/
+theorem c06_expected_is_union (n : Nat) (env : Env) (hek : env.ek = .rich) (hdefs : ∀ d ∈ env.defs, d.c06 = true)
+    (m : Mode) (g : G) (hg : g.c06 = true) (r : ParseResult) (f : St)
+    (h : parseTop n env m g = .result r f) (ho : r.output = none) :
+    ∃ l, f.alt = some l ∧ r.errs = f.errs.map (·.err) ++ [l.err] ∧
+      ((∀ ev ∈ f.log, ev.pos = l.pos → ∀ msg, ev.err.reason ≠ .custom msg) →
+        ∃ exp fo, l.err.reason = .ef exp fo ∧
+          ∀ x, x ∈ exp ↔ ∃ ev ∈ f.log, ev.pos = l.pos ∧ ∃ ex fo', ev.err.reason = .ef ex fo' ∧ x ∈ ex) :=
+  c06_expected_union n env hek hdefs m g hg r f h ho
+
+/-- **user errors preserved (Rich).** A user-supplied error (`try_map`, `custom`) at the furthest position is
+    preserved: the reported reason is the first such custom message there. -/
+theorem c06_user_error_preserved (n : Nat) (env : Env) (hek : env.ek = .rich) (hdefs : ∀ d ∈ env.defs, d.c06 = true)
+    (m : Mode) (g : G) (hg : g.c06 = true) (r : ParseResult) (f : St)
+    (h : parseTop n env m g = .result r f) (ho : r.output = none) :
+    ∃ l, f.alt = some l ∧ r.errs = f.errs.map (·.err) ++ [l.err] ∧
+      ((∃ ev ∈ f.log, ev.pos = l.pos ∧ ∃ msg, ev.err.reason = .custom msg) →
+        ∃ ev msg, (f.log.filter (·.pos = l.pos)).find? (fun ev => ev.err.reason.isCustom) = some ev ∧
+          ev.err.reason = .custom msg ∧ l.err.reason = .custom msg) :=
+  c06_custom_preserved n env hek hdefs m g hg r f h ho
+
+/-- **truthful span and `found`.** The span of the reported error lies inside the input with start ≤ end; for an
+    expected/found reason it starts at the failure position, `found` is the token there, and `found = None` only at
+    the end of input (then the span is the empty span at the end). (`&str` and slice-like inputs.) -/
+theorem c06_span_and_found (n : Nat) (env : Env) (hk : env.kind ≠ .mapped) (hek : env.ek = .rich)
+    (hdefs : ∀ d ∈ env.defs, d.c06 = true) (hdefsN : ∀ d ∈ env.defs, d.nec = true)
+    (m : Mode) (g : G) (hg : g.c06 = true) (hn : g.nec = true) (r : ParseResult) (f : St)
+    (h : parseTop n env m g = .result r f) (ho : r.output = none) :
+    ∃ e, r.errs.getLast? = some e ∧
+      e.span.1 ≤ e.span.2 ∧ e.span.2 ≤ env.off env.toks.length ∧
+      ∀ exp fo, e.reason = .ef exp fo →
+        ∃ p, p ≤ env.toks.length ∧ e.span.1 = env.off p ∧ fo = env.toks[p]? ∧
+          (fo = none → p = env.toks.length ∧ e.span = (env.off env.toks.length, env.off env.toks.length)) :=
+  c06_primary_span_found n env hk hek hdefs hdefsN m g hg hn r f h ho
+
+/-- every reported error (secondary ones too, successful parses too) has an ordered span inside the input -/
+theorem c06_all_spans_inside (n : Nat) (env : Env) (hk : env.kind ≠ .mapped) (hek : env.ek = .rich)
+    (hdefs : ∀ d ∈ env.defs, d.c06 = true) (hdefsN : ∀ d ∈ env.defs, d.nec = true)
+    (m : Mode) (g : G) (hg : g.c06 = true) (hn : g.nec = true) (r : ParseResult) (f : St)
+    (h : parseTop n env m g = .result r f) :
+    ∀ e ∈ r.errs, e.span.1 ≤ e.span.2 ∧ e.span.2 ≤ env.off env.toks.length :=
+  parseTop_all_spans n env hk hek hdefs hdefsN m g hg hn r f h
+
+/-- **the error type does not matter.** Cheap, Simple and Rich report the same span for the same grammar and input
+    (every grammar; memoization off): the two parses agree on acceptance, output, number of errors and, pointwise,
+    on every error span including the primary one. -/
+theorem c06_kinds_agree (n : Nat) (env : Env) (hm : env.memoOn = false) (k1 k2 : ErrKind) (h1 : k1 ≠ .empty)
+    (h2 : k2 ≠ .empty) (m : Mode) (g : G) :
+    TopSim (parseTop n { env with ek := k1 } m g) (parseTop n { env with ek := k2 } m g) :=
+  parseTop_kindSim n env hm k1 k2 h1 h2 m g
+
+/-- non-vacuity: two alternatives fail at the same furthest position (after the first consumed "a"), a third
+    earlier: the report is at 1 with the union {'b', 'c'}; the hypotheses (class membership) are decidable -/
+example :
+    let g : G := .or_ (.then_ (.just [97]) (.just [98])) (.or_ (.then_ (.just [97]) (.just [99])) (.just [120]))
+    g.c06 = true ∧ g.nec = true ∧
+    (match parseTop 12 { toks := [97, 100] } .emit g with
+      | .result r _ => (r.output, r.errs)
+      | _ => (none, [])) = (none, [⟨(1, 2), .ef [.tok 98, .tok 99] (some 100), []⟩]) := by
+  decide +kernel
+
+#print axioms c06_pending_is_summary
+#print axioms c06_reported_is_summary
+#print axioms c06_primary_is_furthest
+#print axioms c06_expected_is_union
+#print axioms c06_user_error_preserved
+#print axioms c06_span_and_found
+#print axioms c06_all_spans_inside
+#print axioms c06_kinds_agree
 end Chumsky
